@@ -19,6 +19,7 @@ This makes `front = [None] * padding[0]; self.content = front + self.content + b
 The matcher is purely syntactic; it is used for necessary conditions of the form "the defining statement is present".
 """
 import ast
+import os
 import re
 
 _MV = '_MV_'
@@ -147,8 +148,11 @@ class Matcher:
             if (set(pk) - set(nk)) or (not any_kw and set(nk) - set(pk)):
                 return False
             return all(self._m(pk[k], nk[k], env, d) for k in pk)
+        header = getattr(p, '_header_only', False)
         for field in p._fields:
             if field in ('ctx', 'type_comment', 'lineno', 'col_offset', 'end_lineno', 'end_col_offset', 'kind'):
+                continue
+            if header and field in ('body', 'orelse', 'finalbody', 'handlers'):
                 continue
             a = getattr(p, field, None)
             b = getattr(n, field, None)
@@ -206,3 +210,156 @@ def has(root, pattern, **kw):
 def has_all(root, patterns, **kw):
     """list of the patterns that are missing"""
     return [p for p in patterns if not has(root, p, **kw)]
+
+
+# ---------------------------------------------------------------------------------------------------------------------------------
+# "text modulo renaming of locals": the drop-in replacement for   t = unparse(func);  '<statement>' in t
+
+import builtins as _bi
+
+
+def _module_names(module_tree):
+    out = set(dir(_bi))
+    for n in module_tree.body:
+        if isinstance(n, (ast.FunctionDef, ast.AsyncFunctionDef, ast.ClassDef)):
+            out.add(n.name)
+        elif isinstance(n, (ast.Import, ast.ImportFrom)):
+            for a in n.names:
+                out.add((a.asname or a.name).split('.')[0])
+        elif isinstance(n, ast.Assign):
+            for t in n.targets:
+                for x in ast.walk(t):
+                    if isinstance(x, ast.Name):
+                        out.add(x.id)
+        elif isinstance(n, (ast.If, ast.Try)):
+            for x in ast.walk(n):
+                if isinstance(x, (ast.Import, ast.ImportFrom)):
+                    for a in x.names:
+                        out.add((a.asname or a.name).split('.')[0])
+    return out
+
+
+def _params(func):
+    out = set()
+    for f in ast.walk(func):
+        if isinstance(f, (ast.FunctionDef, ast.AsyncFunctionDef, ast.Lambda)):
+            a = f.args
+            for x in a.posonlyargs + a.args + a.kwonlyargs:
+                out.add(x.arg)
+            if a.vararg:
+                out.add(a.vararg.arg)
+            if a.kwarg:
+                out.add(a.kwarg.arg)
+    return out
+
+
+class Text:
+    """`'<expr or statement>' in Text(mod, func)` is true when the function contains that expression / statement up to a
+    consistent renaming of its local variables and up to temporaries (matching modulo single-assignment local definitions).
+    Names of the fragment that are parameters, module-level names, imports or builtins are literal; every other name is a local
+    and becomes a metavariable.  All fragments that were found so far must be satisfiable by ONE renaming, so the roles of the
+    locals stay tied together across fragments (swapping which local receives which value is still seen).
+    A fragment that is not a complete expression / statement falls back to a substring test on the unparsed text; those are
+    counted in `.fallbacks`."""
+
+    def __init__(self, module_tree, func, literal=()):
+        self.func = func
+        self.fixed = _module_names(module_tree) | _params(func) | set(literal) | {'self', 'cls'}
+        for n in ast.walk(func):
+            if isinstance(n, (ast.Import, ast.ImportFrom)):
+                for a in n.names:
+                    self.fixed.add((a.asname or a.name).split('.')[0])
+            elif isinstance(n, (ast.FunctionDef, ast.AsyncFunctionDef, ast.ClassDef)) and n is not func:
+                self.fixed.add(n.name)
+        self.defs = local_defs(func)
+        self.unparsed = ast.unparse(func)
+        self.accepted = []      # list of candidate env lists
+        self.fallbacks = []
+        self.generalised = 0
+
+    def _compile(self, frag):
+        frag = re.sub(r'\$\$([A-Za-z_][A-Za-z0-9_]*)', _MVS + r'\1', frag)
+        frag = re.sub(r'\$([A-Za-z_][A-Za-z0-9_]*)', _MV + r'\1', frag)
+        header = False
+        try:
+            if frag.rstrip().endswith(':'):
+                tree = ast.parse(frag + ' pass')
+                header = True
+            else:
+                tree = ast.parse(frag)
+        except SyntaxError:
+            return None
+        if len(tree.body) != 1:
+            return None
+        if header:
+            tree.body[0]._header_only = True
+        fixed = self.fixed
+
+        class R(ast.NodeTransformer):
+            def visit_Name(self, n):
+                if n.id in fixed or n.id.startswith(_MV):
+                    return n
+                return ast.copy_location(ast.Name(id=_MV + n.id, ctx=n.ctx), n)
+
+            def visit_arg(self, n):
+                return n
+
+            def visit_Lambda(self, n):
+                return n
+        node = R().visit(tree.body[0])
+        if isinstance(node, ast.Expr):
+            node = node.value
+        return node
+
+    def _candidates(self, patnode):
+        m = Matcher(self.defs)
+        want_stmt = isinstance(patnode, ast.stmt)
+        out = []
+        for n in ast.walk(self.func):
+            if want_stmt != isinstance(n, ast.stmt):
+                continue
+            if not want_stmt and not isinstance(n, ast.expr):
+                continue
+            env = {}
+            if m.match(patnode, n, env):
+                out.append(env)
+        return out
+
+    @staticmethod
+    def _compatible(e1, e2):
+        for k in e1.keys() & e2.keys():
+            a, b = e1[k], e2[k]
+            if isinstance(a, list) or isinstance(b, list):
+                if not (isinstance(a, list) and isinstance(b, list) and len(a) == len(b) and all(_same(_strip_ctx(x), _strip_ctx(y)) for x, y in zip(a, b))):
+                    return False
+            elif not _same(_strip_ctx(a), _strip_ctx(b)):
+                return False
+        return True
+
+    def _joint(self, groups):
+        def rec(i, env):
+            if i == len(groups):
+                return True
+            for cand in groups[i]:
+                if self._compatible(env, cand):
+                    e2 = dict(env)
+                    e2.update(cand)
+                    if rec(i + 1, e2):
+                        return True
+            return False
+        return rec(0, {})
+
+    def __contains__(self, frag):
+        patnode = self._compile(frag)
+        if patnode is None:
+            self.fallbacks.append(frag)
+            if os.environ.get('VERIF_PAT_DEBUG'):
+                print('PAT-FALLBACK %s: %r' % (getattr(self.func, 'name', '?'), frag))
+            return frag in self.unparsed
+        cands = self._candidates(patnode)
+        if not cands:
+            return False
+        if self._joint(self.accepted + [cands]):
+            self.accepted.append(cands)
+            return True
+        return False
